@@ -159,9 +159,10 @@ pub fn run(ctx: &mut Ctx) {
         for targets in target_sets {
             let tset: HashSet<D32> = targets.iter().cloned().collect();
             let revealing = rng.chance(1, 2);
-            let mut act = *rng.pick(&ACTS);
+            let act = *rng.pick(&ACTS);
             if act == Act::Compress && has_hidden {
-                act = Act::Elide;
+                // (since the repair of D5d the Compress action leaves elided / encrypted elements alone)
+                ctx.count("compress_action_over_hidden_elements");
             }
             let ph = match act {
                 Act::Elide => Kind::Elided,
@@ -196,6 +197,26 @@ pub fn run(ctx: &mut Ctx) {
                 let class = d.splitn(2, ": ").nth(1).unwrap_or("?").split_whitespace().next().unwrap_or("?").to_string();
                 ctx.violation(&format!("visibility/{:?}/{}/{}", act, if revealing { "revealing" } else { "removing" }, class), &d, replay());
                 continue;
+            }
+            // "only ciphertext": every element this call encrypted has its own fresh nonce -- among themselves,
+            // against what the input already held, and against a second run of the same call (a nonce used
+            // twice under one key gives away the XOR of two plaintexts, e.g. of two digest-equal forms)
+            if act == Act::Encrypt {
+                let old: HashSet<([u8; 12], Vec<u8>)> = crate::pos::encrypted_elements(&e).into_iter().collect();
+                let fresh = |x: &Envelope| -> Vec<[u8; 12]> { crate::pos::encrypted_elements(x).into_iter().filter(|m| !old.contains(m)).map(|m| m.0).collect() };
+                let mut nonces = fresh(&r);
+                if !nonces.is_empty() {
+                    ctx.count("encrypt_action_nonce_sets");
+                    let mut r5 = rng.fork();
+                    if let Ok(again) = trap::guard(|| gen::elide_via_any_entry_point(&e, &targets, revealing, act, &key, &mut r5)) {
+                        nonces.extend(fresh(&again));
+                    }
+                    nonces.extend(old.iter().map(|m| m.0));
+                    let distinct: HashSet<[u8; 12]> = nonces.iter().cloned().collect();
+                    if distinct.len() != nonces.len() {
+                        ctx.violation("encrypt-action/nonce-reused", "two elements encrypted under the same key share a nonce (within one result, with the input's encrypted elements, or across two runs of the same call)", replay());
+                    }
+                }
             }
             let bytes = env_bytes(&r);
             // exact bytes: with the elide action on an envelope without encrypted/compressed parts the
